@@ -126,7 +126,7 @@ func c10Profiles(tier string) []Profile {
 	}
 	aborted := Profile{Name: "aborted-mutations", Exec: OnlyOracles(c07Exec(1, 1, false), "observe", "model", "recycle", "durable"),
 		Budget: map[int]int{1: 0, 2: 0, 3: 1}, ShardLevel: 3,
-		Rule: "recycling after a mutation that was abandoned half-way: the C07 driver (5 initial stores incl. a re-opened 7-item tree x every single operation x one failing file call at every index, retried or not) followed by a mutation, Flush, full read battery, Reopen, full read battery; only the contents oracles are kept"}
+		Rule: "recycling after a mutation that was abandoned half-way: the C07 driver (8 initial stores incl. a re-opened 7-item tree x every single operation x one failing file call at every index, retried or not) followed by a mutation, Flush, full read battery, Reopen, full read battery; only the contents oracles are kept"}
 	var conc []Profile
 	for _, sc := range c05More() {
 		if sc.Name == "S12-snapshot-replaced" || sc.Name == "S5-snapshot" || sc.Name == "S11-slow-get" || sc.Name == "S14-snapshot-flush" {
